@@ -68,7 +68,21 @@ fn same_decode(a: &Result<Frame<'static>, FrameError>, b: &Result<Frame<'static>
     }
 }
 
+/// a read and a write that fail on some other port of the same thread; whatever they leave behind must not matter
+fn poison_thread() {
+    let mut st = PortState::new(b":0100030".to_vec());
+    st.read_script = vec![ReadStep::Serve(3), ReadStep::Error(io::ErrorKind::Other)];
+    st.write_script = vec![WriteStep::Accept(4), WriteStep::Error(io::ErrorKind::BrokenPipe)];
+    let mut p = TestPort::with_state(st);
+    let _ = Frame::read(&mut p);
+    let f = Frame::new(Address(0x7E7E), MsgType(0x7E), Data::try_new(vec![0x7E; 9]).unwrap());
+    let _ = f.write(&mut p);
+    let mut garbage: &[u8] = b":00\xff\r\n";
+    let _ = Frame::read(&mut garbage);
+}
+
 pub fn check_read(c: &ReadCase, st: &mut Stats) -> Result<(), String> {
+    poison_thread();
     let mut state = PortState::new(c.stream.clone());
     state.read_script = c
         .script
@@ -182,6 +196,7 @@ pub struct WriteCase {
 }
 
 pub fn check_write(c: &WriteCase, st: &mut Stats) -> Result<(), String> {
+    poison_thread();
     let mut want = ref_encode(c.frame.addr, c.frame.ty, &c.frame.data);
     want.extend_from_slice(b"\r\n");
     let mut state = PortState::new(vec![]);
